@@ -2,6 +2,8 @@
 // Never part of /repo, never executed; every C18 rule must report something here on every run.
 #include <cstdint>
 
+extern "C" void __assert_fail(const char*, const char*, unsigned int, const char*) noexcept __attribute__((__noreturn__));
+
 namespace osmium {
 
 class Location {
@@ -16,6 +18,10 @@ public:
 namespace geom {
 
 constexpr double PI = 3.14159;  // K3: not pi
+
+// K3: literal factor instead of PI / 180.0
+constexpr double deg_to_rad(double degree) noexcept { return degree * 0.0174532925199433; }
+constexpr double rad_to_deg(double radians) noexcept { return radians * 57.2957795130823; }
 
 struct Coordinates {
     double x;
@@ -79,6 +85,8 @@ struct Tile {
 
     // K4: y computed from the x coordinate
     explicit Tile(uint32_t zoom, const osmium::Location& location) : z(zoom) {
+        // K7: the legal maximum zoom aborts (the expansion of assert(zoom < max_zoom), written out so that it survives NDEBUG)
+        (zoom < max_zoom) ? static_cast<void>(0) : __assert_fail("zoom < max_zoom", "c18_tile.cpp", 1, "Tile");
         const auto coordinates = lonlat_to_mercator(location);
         x = mercx_to_tilex(zoom, coordinates.x);
         y = mercy_to_tiley(zoom, coordinates.x);
@@ -108,6 +116,8 @@ void c18_positive_use(const osmium::Location& l) {
     osmium::geom::Tile t2{1, osmium::geom::Coordinates{1.0, 2.0}};
     osmium::geom::Tile t3{1, 1, 1};
     (void)t1.valid();
+    (void)osmium::geom::deg_to_rad(1.0);
+    (void)osmium::geom::rad_to_deg(1.0);
     (void)t2;
     (void)t3;
 }
